@@ -5,24 +5,34 @@ pub mod sched;
 pub mod c01;
 pub mod c02;
 pub mod c03;
+pub mod c04;
 pub mod c06;
+pub mod c07;
 pub mod c08;
 pub mod c09;
 pub mod arr;
 pub mod c10;
 pub mod c11;
+pub mod c12;
+pub mod c13;
 pub mod c14;
+pub mod c16;
 pub mod c18;
 
 pub fn register(t: &mut Table) {
     c01::register(t);
     c02::register(t);
     c03::register(t);
+    c04::register(t);
     c06::register(t);
+    c07::register(t);
     c08::register(t);
     c09::register(t);
     c10::register(t);
     c11::register(t);
+    c12::register(t);
+    c13::register(t);
     c14::register(t);
+    c16::register(t);
     c18::register(t);
 }
